@@ -99,19 +99,36 @@ type c03client struct {
 	chain []wire.BlockHeader // index = height
 }
 
+// c03SlowFS is the filter header store as the block manager sees it: a
+// commit may take its time before it starts (the caller is parked with
+// whatever it holds, before the store's own lock is taken).
+type c03SlowFS struct {
+	headerfs.FilterHeaderStore
+	h *c03h
+}
+
+func (s *c03SlowFS) WriteHeaders(hdrs ...headerfs.FilterHeader) error {
+	if s.h.writeGate != nil {
+		s.h.writeGate()
+	}
+	return s.FilterHeaderStore.WriteHeaders(hdrs...)
+}
+
 type c03h struct {
-	c       *verifeng.Chooser
-	f       *c03fix
-	bm      *blockManager
-	bs      headerfs.BlockHeaderStore
-	fs      headerfs.FilterHeaderStore
-	genFH   chainhash.Hash
-	peers   []*c03peer
-	bans    map[string]banman.Reason
-	pending *c03query
-	clients []*c03client
-	oracle  string
-	nrecv   int
+	writeGate  func()
+	beforeRead func()
+	c          *verifeng.Chooser
+	f          *c03fix
+	bm         *blockManager
+	bs         headerfs.BlockHeaderStore
+	fs         headerfs.FilterHeaderStore
+	genFH      chainhash.Hash
+	peers      []*c03peer
+	bans       map[string]banman.Reason
+	pending    *c03query
+	clients    []*c03client
+	oracle     string
+	nrecv      int
 	// blocks whose filter header was committed at some quiescent point
 	committedEver map[chainhash.Hash]bool
 	// block headers seen in the store at one quiescent point and gone at
@@ -245,6 +262,11 @@ func (h *c03h) completeQuery() {
 }
 
 func (h *c03h) storeChains() (blocks []wire.BlockHeader, filters []chainhash.Hash, bad string) {
+	if h.beforeRead != nil {
+		// a slow file write that is still parked holds its store's lock:
+		// it completes before the observer looks
+		h.beforeRead()
+	}
 	_, bt, err := h.bs.ChainTip()
 	if err != nil {
 		return nil, nil, "block ChainTip: " + err.Error()
@@ -499,7 +521,7 @@ func c03Run(c *verifeng.Chooser, f *c03fix, env *verifhfs.Env, depth, npeers int
 	h.bm, err = newBlockManager(&blockManagerCfg{
 		ChainParams:      *f.params,
 		BlockHeaders:     h.bs,
-		RegFilterHeaders: h.fs,
+		RegFilterHeaders: &c03SlowFS{FilterHeaderStore: h.fs, h: h},
 		TimeSource:       vfxTime{f.now},
 		BanPeer: func(addr string, r banman.Reason) error {
 			h.bans[addr] = r
@@ -573,8 +595,29 @@ func c03Run(c *verifeng.Chooser, f *c03fix, env *verifhfs.Env, depth, npeers int
 		close(first)
 		verifbubble.Wait()
 	}
+	slowWriteArmed, slowWrites := false, 0
+	var parkedWrite chan struct{}
+	h.writeGate = func() {
+		if slowWriteArmed {
+			slowWriteArmed = false
+			g := make(chan struct{})
+			parkedWrite = g
+			<-g
+		}
+	}
+	releaseWrite := func() {
+		slowWriteArmed = false
+		if parkedWrite != nil {
+			close(parkedWrite)
+			parkedWrite = nil
+		}
+	}
+	h.beforeRead = releaseWrite
 	stopped := false
 	defer func() {
+		// a write that is still parked completes first (Stop waits for the
+		// handler that is in the middle of it)
+		releaseWrite()
 		if !stopped {
 			h.drainUntilStopped()
 		}
@@ -628,9 +671,14 @@ func c03Run(c *verifeng.Chooser, f *c03fix, env *verifhfs.Env, depth, npeers int
 			c.Fail(oracle, "lock-order-inversion:"+sig, "%s", detail)
 			return
 		}
-		h.sampleCommitted()
-		if oracle != "C19" && h.checkC03(fmt.Sprintf("at quiescent point %d", d)) {
-			return
+		// while a write to the filter header file is parked its store is
+		// locked: nothing is read from the stores (and no event that makes
+		// the harness read them is offered) until it completes
+		if parkedWrite == nil {
+			h.sampleCommitted()
+			if oracle != "C19" && h.checkC03(fmt.Sprintf("at quiescent point %d", d)) {
+				return
+			}
 		}
 		type ev struct {
 			name string
@@ -640,7 +688,7 @@ func c03Run(c *verifeng.Chooser, f *c03fix, env *verifhfs.Env, depth, npeers int
 		// the receiving end of the notification channel: either one event
 		// is taken (now, or as soon as one is emitted - the emitter stays
 		// blocked until then), or everything pending is drained.
-		if recvTask != nil && recvTask.Done() {
+		if recvTask != nil && recvTask.Done() && parkedWrite == nil {
 			n := recvTask.Val.(blockntfns.BlockNtfn)
 			recvTask = nil
 			c.Note("received event #%d", h.nrecv+1)
@@ -648,7 +696,7 @@ func c03Run(c *verifeng.Chooser, f *c03fix, env *verifhfs.Env, depth, npeers int
 				return
 			}
 		}
-		if recvTask == nil {
+		if recvTask == nil && parkedWrite == nil {
 			menu = append(menu, ev{"receiver takes one event", func() bool {
 				recvTask = verifbubble.Go("recv", func() (any, error) {
 					select {
@@ -698,13 +746,29 @@ func c03Run(c *verifeng.Chooser, f *c03fix, env *verifhfs.Env, depth, npeers int
 				return true
 			}})
 		}
-		if h.pending != nil {
+		if h.pending != nil && parkedWrite == nil {
 			menu = append(menu, ev{fmt.Sprintf("peers answer %T", h.pending.msg), func() bool { h.completeQuery(); return true }})
 		}
 		if advances < 3 {
 			menu = append(menu, ev{"advance 3s", func() bool { advances++; time.Sleep(3 * time.Second); return true }})
 		}
-		if oracle != "C03" && probes < 2 {
+		// a write to the filter header file may take its time: the filter
+		// header handler is then parked in the middle of a commit (holding
+		// what it holds), and headers can arrive meanwhile
+		if parkedWrite != nil {
+			pw := parkedWrite
+			menu = append(menu, ev{"the slow filter header commit goes ahead", func() bool { parkedWrite = nil; close(pw); return true }})
+		} else if !slowWriteArmed && slowWrites < 1 && h.pending != nil {
+			if _, ok := h.pending.msg.(*wire.MsgGetCFHeaders); ok {
+				menu = append(menu, ev{"peers answer *wire.MsgGetCFHeaders, and the commit of the filter headers that follows is slow to start", func() bool {
+					slowWriteArmed = true
+					slowWrites++
+					h.completeQuery()
+					return true
+				}})
+			}
+		}
+		if oracle != "C03" && probes < 2 && parkedWrite == nil {
 			for _, ht := range []uint32{1, 2} {
 				ht := ht
 				menu = append(menu, ev{fmt.Sprintf("subscriber registers with backlog from height %d", ht), func() bool {
@@ -744,6 +808,8 @@ func c03Run(c *verifeng.Chooser, f *c03fix, env *verifhfs.Env, depth, npeers int
 	verifbubble.Wait()
 	burst.End()
 	burst.Off()
+	releaseWrite()
+	verifbubble.Wait()
 	// ---- convergence: with the honest peer answering everything the
 	// filter headers must catch up with the block headers.
 	for round := 0; round < 60; round++ {
@@ -901,11 +967,11 @@ func runC03(t *testing.T, harness, oracle string) {
 	// second configuration: every history up to a smaller depth with at
 	// most one in-burst deviation (scheduler delay / slow goroutine / select)
 	vfxInBurst = true
-	e = verifeng.FromEnv(harness, fmt.Sprintf("depth=%d peers=%d trunk=%d in-burst deviations<=1", depth-2, npeers, c03TrunkLen))
+	e = verifeng.FromEnv(harness, fmt.Sprintf("depth=%d peers=%d trunk=%d in-burst deviations<=1", depth-3, npeers, c03TrunkLen))
 	e.ShardDepth = 3
 	e.MaxViol = 12
 	e.MaxDev = 1
-	e.Run(c03Body(t, depth-2, npeers, oracle))
+	e.Run(c03Body(t, depth-3, npeers, oracle))
 	vfxInBurst = false
 	if err := verifeng.AppendResult(&e.Res); err != nil {
 		t.Fatal(err)
